@@ -811,6 +811,9 @@ class NetworkGraph(AbstractBaseIR):
             # case 0: matrix edge — weight is a 2-D numpy array supplied directly
             # (used by Connectivity; no scalar expansion needed)
             if isinstance(weight, np.ndarray) and weight.ndim == 2:
+                # a node variable that the edge operator reads already (as the target-side variable of a coupling
+                # function, for instance) keeps the name it has there
+                s_str = self._known_input(source_vars, snode, sop, svar) or s_str
                 source_vars[s_str] = {'sources': [sop], 'node': snode, 'var': svar}
                 # Always register the full 2-D weight for cases 0b/0c (wsum uses it);
                 # case 0a may override with a 1-D vector for the single-source path.
@@ -866,7 +869,7 @@ class NetworkGraph(AbstractBaseIR):
                             post_op = info['op']
                             # local name of the target-side variable: must not shadow a source variable of the same
                             # name that lives on another node
-                            post_name = post_var
+                            post_name = self._known_input(source_vars, tnode, post_op, post_var) or post_var
                             while post_name in source_vars and (source_vars[post_name]['node'] != tnode or
                                                                 source_vars[post_name]['var'] != post_var):
                                 post_name += '_post'
@@ -1079,6 +1082,15 @@ class NetworkGraph(AbstractBaseIR):
             inputs[tvar]['sources'].add(op_name)
         else:
             inputs[tvar] = {'sources': [op_name]}
+
+    @staticmethod
+    def _known_input(source_vars: dict, node: str, op: str, var: str) -> Optional[str]:
+        """Returns the name under which an in-edge operator reads the given node variable already (None if it does not).
+        """
+        for name, info in source_vars.items():
+            if info['node'] == node and info['var'] == var and list(info['sources']) == [op]:
+                return name
+        return None
 
     def _process_delays(self, d, discretize=True):
         if type(d) is list:
